@@ -311,8 +311,8 @@ func prepareExpect(p Pair, pre *Pre) (vop string, e *expect, err error) {
 	case "Recreate":
 		e.create = true
 		vop = "Create"
-	case "W":
-		vop = fmt.Sprintf("W:%s:%s:%d", f[1], f[2], m0.NW+1)
+	case "W", "WWO":
+		vop = fmt.Sprintf("%s:%s:%s:%d", f[0], f[1], f[2], m0.NW+1)
 		e.wr = [2]int{atoi(f[1]), atoi(f[2])}
 	case "SnapU", "SnapA":
 		vop = fmt.Sprintf("%s:s%d", f[0], m0.NSnap+1)
@@ -322,6 +322,15 @@ func prepareExpect(p Pair, pre *Pre) (vop string, e *expect, err error) {
 			return bad()
 		}
 		vop = "Revert:" + ea.Disk(m0.Chain[i].Name)
+	case "Replace":
+		// ReplaceDisk(target = member i-1, source = member i): the source's file takes the target's name and the
+		// source leaves the chain.  Only where the source's file already holds every block of the target's (so that no
+		// coalesce step is needed) and neither is promised.
+		i := atoi(f[1])
+		if !replaceEnabled(m0, i) {
+			return bad()
+		}
+		m0.Chain[i].Removed = true // set-up: PrepareRemoveDisk of the source
 	case "Rm", "Fold":
 		i := atoi(f[1])
 		if i < 1 || i > len(m0.Chain)-2 || m0.Chain[i-1].Retained() {
@@ -339,8 +348,10 @@ func prepareExpect(p Pair, pre *Pre) (vop string, e *expect, err error) {
 	m1 := m0.Clone()
 	switch f[0] {
 	case "Open", "Close", "Reload", "Recreate":
-	case "Rm":
+	case "Rm", "Replace":
 		m1.Remove(atoi(f[1]))
+	case "WWO":
+		m1.Write(atoi(f[1]), atoi(f[2])) // applied, but a write-only (rebuilding) replica does not count it
 	case "Fold":
 		i := atoi(f[1])
 		m1.Chain[i-1].Img = append([]uint8(nil), m1.Chain[i].Img...)
@@ -400,12 +411,20 @@ func (x *jobCtx) finding(kind string, k int, errno string, v *verdict, what stri
 		}
 		sig = fmt.Sprintf("crash:%s:after:%s:%s", oc, after, v.oracle)
 	case "fail":
-		sig = fmt.Sprintf("fail:%s:#%d:%s:%s:%s", oc, k, x.ref.calls[k].class(x.oldHead()), errno, v.oracle)
+		if callSiteOracle[v.oracle] {
+			// by-the-letter classes that cannot be repaired by a small patch: the signature names the call site, not
+			// every ordinal and errno at which it shows
+			sig = fmt.Sprintf("fail:%s:%s:%s", oc, x.ref.calls[k].class(x.oldHead()), v.oracle)
+		} else {
+			sig = fmt.Sprintf("fail:%s:#%d:%s:%s:%s", oc, k, x.ref.calls[k].class(x.oldHead()), errno, v.oracle)
+		}
 	case "lint":
 		sig = fmt.Sprintf("lint:%s:#%d:%s:%s", oc, k, x.ref.calls[k].class(x.oldHead()), v.oracle)
 	}
 	x.res.Findings = append(x.res.Findings, Finding{Pair: x.job.Pair, Kind: kind, K: k, Errno: errno, Oracle: v.oracle, Signature: sig, What: what, Detail: v.detail})
 }
+
+var callSiteOracle = map[string]bool{"failure-reported-but-effect-in-place": true, "success-after-failed-flush": true}
 
 // RunJob executes one job in this process (pre-state and recoveries in-process, victims as traced child processes).
 func RunJob(job *Job, verbose bool) (res *Result) {
@@ -419,7 +438,7 @@ func RunJob(job *Job, verbose bool) (res *Result) {
 			Poisoned = true
 		}
 		os.RemoveAll(x.base)
-		res.Recoveries, res.RevertChecks, res.C10Points, res.C10Bad = x.st.recoveries, x.st.revertChecks, x.st.c10Points, x.st.c10Bad
+		res.Recoveries, res.RevertChecks = x.st.recoveries, x.st.revertChecks
 		res.WallMs = time.Since(t0).Milliseconds()
 	}()
 	os.MkdirAll(x.base, 0755)
@@ -625,6 +644,7 @@ func (x *jobCtx) crashAll(judge func(int, string) *verdict) error {
 			x.res.CrashRecover++
 		}
 		os.RemoveAll(d)
+		x.c10(v)
 		if v != nil {
 			if k == 0 {
 				return fmt.Errorf("oracle rejects the pre-state itself (crash state 0): %s: %s", v.oracle, v.detail)
@@ -648,10 +668,23 @@ func (x *jobCtx) crashOne(k int) error {
 	}
 	x.res.CrashStates++
 	x.res.CrashRecover++
-	if v := x.e.check(d, "crash", &x.st); v != nil {
+	v := x.e.check(d, "crash", &x.st)
+	x.c10(v)
+	if v != nil {
 		x.finding("crash", k, "", v, x.crashWhat(k))
 	}
 	return nil
+}
+
+// c10 counts one crash point of the revision-counter clause (C10): writes in RW and WO mode and SetRevisionCounter.
+func (x *jobCtx) c10(v *verdict) {
+	switch x.e.op[0] {
+	case "W", "WWO", "SetRev":
+		x.res.C10Points++
+		if v != nil && strings.HasPrefix(v.oracle, "revision-counter") {
+			x.res.C10Bad++
+		}
+	}
 }
 
 func (x *jobCtx) listDir(d string) {
